@@ -9,6 +9,8 @@
  *                             (the buffer is pre-filled with 0xa5, so unwritten octets show as a5)
  *   encnew <syn> <val>        asn_encode_to_new_buffer
  *                             -> buf=null|nonnull encoded=<n> exact=<0|1|-> nul=<0|1|-> errno=<E> alloc=<bytes|->
+ *                             (contract: encoded >= 0 <=> buf=nonnull exact=1 nul=1; a failure is `buf=null encoded=-1`,
+ *                              `buf=nonnull encoded=-1` is the former F39 and a violation)
  *   enccb <syn> <k> <val>     asn_encode with a callback failing (only) at invocation index k (k = -1: never)
  *                             -> ret=<n> errno=<E> chunks=<s0,s1,...|-> after=<invocations after k> delivered=<hex of the
  *                                bytes accepted before invocation k (all accepted bytes when k = -1)>
